@@ -391,9 +391,41 @@ def match_consumes_the_script(ctx):
             ctx.undecided("match-consumes-script", ctx.where(f, e.node), "ContractAPI.match accepts under `%s`; this rule reads `position == len(script)`" % [o[:50] for o in ops if ("len(%s)" % sp) in o][:2])
 
 
+def _exactly(ctx_formula, n, others=(20, 33, 65)):
+    """does the path condition pin a length to n: some atom it entails mentions n and none of the other widths"""
+    if ctx_formula in (True, False):
+        return False
+    for o in gi.f_opaques(ctx_formula):
+        if isinstance(o, str) and "len(" in o and re.search(r"(?<![\w.])%d(?![\w.])" % n, o) and not any(re.search(r"(?<![\w.])%d(?![\w.])" % k, o) for k in others):
+            if sym.entails(ctx_formula, ("op", o)):
+                return True
+    return False
+
+
+def p2tr_key_is_32_bytes(ctx):
+    """a script is reported as p2tr only for a 32-byte program: the width is enforced where the SYNTHETIC_KEY placeholder is bound
+    (ContractAPI.match) or where the kind is reported (info_for_script) -- one of the two sites at least; `OP_1 <20 bytes>` reported
+    as p2tr gets an address the network's own parser (which demands 32 bytes) refuses"""
+    m = ctx.func(CAPI, "ContractAPI.match")
+    wm = sym.walk(ctx, m)
+    binds = [e for e in wm.effects if e.kind == "call" and e.call.args and "'SYNTHETIC_KEY'" in norm(e.raw.func) and norm(e.raw.func).endswith(".append")]
+    f = ctx.func(CAPI, "ContractAPI.info_for_script")
+    wf = sym.walk(ctx, f)
+    reports = [e for e in wf.exits if e.kind == "return" and e.value is not None and "'p2tr'" in norm(e.value)]
+    if not binds or not reports:
+        ctx.undecided("p2tr-key-is-32-bytes", ctx.where(f), "the SYNTHETIC_KEY binding in match (%d found) / the p2tr report in info_for_script (%d found) are not in a form this clause reads" % (len(binds), len(reports)))
+        return
+    at_match = all(_exactly(e.reach, 32) for e in binds)
+    at_report = all(_exactly(e.cond, 32) for e in reports)
+    ctx.check(at_match or at_report, "p2tr-key-is-32-bytes", ctx.where(f, reports[0].node),
+              "neither ContractAPI.match (where the SYNTHETIC_KEY placeholder is bound) nor info_for_script (where p2tr is reported) pins the program to 32 bytes: `OP_1 <20 bytes>` is reported as p2tr, and its address is one the parser refuses",
+              sample={"enforced_in_match": at_match, "enforced_in_info_for_script": at_report})
+
+
 def c08_4(ctx):
     classified_through_matcher(ctx)
     match_consumes_the_script(ctx)
+    p2tr_key_is_32_bytes(ctx)
     capi = ctx.p.cls(CAPI, "ContractAPI")
     f = capi.methods.get("_is_nonminimal_push")
     if f is None:
